@@ -707,7 +707,7 @@ func (m *LifeMon) onReturn(c *eng.Ctx, s lifeState, ev *eng.Event, batch bool) {
 		if batch && s.emptyBatch {
 			role = "batch-empty"
 		}
-		m.Col.CheckAt("C18.R1,C10.R9", role+"|Run:success-return", nonEmpty, "post@"+s.lastPos, "a successful run may return the empty action: "+act.Pretty()+" is not tested against \"\" on this path (return at "+posStr(ev.Pos)+")", pathIf(!nonEmpty, c))
+		m.Col.CheckAt("C18.R1,C10.R9,C01.R5", role+"|Run:success-return", nonEmpty, "post@"+s.lastPos, "a successful run may return the empty action: "+act.Pretty()+" is not tested against \"\" on this path (return at "+posStr(ev.Pos)+")", pathIf(!nonEmpty, c))
 	case eng.TriFalse:
 		sc, isC := act.StringConst()
 		ck("C01.R5", isC && sc == "", "an error return must carry the empty action, got "+act.Pretty())
@@ -764,7 +764,7 @@ func (m *LifeMon) onReturn(c *eng.Ctx, s lifeState, ev *eng.Event, batch bool) {
 			nonEmpty = c.Eval(eng.Bin("==", act, eng.ConstString(""))) == eng.TriFalse
 		}
 		if !nonEmpty {
-			m.Col.CheckAt("C18.R1,C10.R9", v+"|Run:success-return", false, posStr(ev.Pos), "the run returns the action "+act.Pretty()+" together with an error that may be nil ("+err.Pretty()+"): a successful run would yield the empty action", pathIf(true, c))
+			m.Col.CheckAt("C18.R1,C10.R9,C01.R5", v+"|Run:success-return", false, posStr(ev.Pos), "the run returns the action "+act.Pretty()+" together with an error that may be nil ("+err.Pretty()+"): a successful run would yield the empty action", pathIf(true, c))
 		}
 	}
 }
